@@ -76,3 +76,29 @@ Proof.
   - intros Hx. destruct (Hmay x Hx) as [w [[<-|[]] Hw]]. assumption.
   - intros Hx. apply Hmust. intros w [<-|[]]. assumption.
 Qed.
+
+(** ** WaitTrigger requests that really wait
+
+    [elapsed; timeout; margin; threshold; served]: a request `WaitObject: o / WaitCondition: current_attempt >=
+    threshold / WaitTimeout: timeout` was answered after [elapsed] ms and shows version [served] for [o] (every check
+    result of [o] writes its version into current_attempt and all other stamped columns; -1: the backend of [o] is
+    listed as failed). An answer that arrives clearly before the timeout was released by the condition: it must
+    satisfy its own WaitCondition - its row of [o] belongs to a version at or after the one that made the condition
+    true (versions only grow). *)
+Definition wait_ok (o : list Z) : bool :=
+  match o with
+  | [elapsed; timeout; margin; threshold; served] =>
+      (served <? 0) || negb (elapsed + margin <? timeout) || (threshold <=? served)
+  | _ => false
+  end.
+
+Lemma wait_ok_spec elapsed timeout margin threshold served :
+  wait_ok [elapsed; timeout; margin; threshold; served] = true ->
+  0 <= served -> elapsed + margin < timeout -> threshold <= served.
+Proof.
+  unfold wait_ok. intros H Hs He.
+  apply orb_true_iff in H as [H|H]; [apply orb_true_iff in H as [H|H]|].
+  - apply Z.ltb_lt in H. lia.
+  - apply negb_true_iff, Z.ltb_ge in H. lia.
+  - apply Z.leb_le in H. assumption.
+Qed.
